@@ -247,6 +247,20 @@ impl TopicCleanTracker {
         self.store.persist_updates(&updates)
     }
 
+    /// Synchronously persist the current state of every topic. The background
+    /// persister only holds a weak reference and stops once the tracker is gone, so
+    /// whoever shuts the tracker down has to flush what is still pending.
+    pub fn flush_all(&self) -> std::io::Result<()> {
+        let snapshot = match self.states.read() {
+            Ok(guard) => guard
+                .iter()
+                .map(|(topic, state)| (topic.clone(), state.snapshot()))
+                .collect::<Vec<_>>(),
+            Err(_) => return Ok(()),
+        };
+        self.store.persist_updates(&snapshot)
+    }
+
     #[cfg(test)]
     pub fn force_flush_for_test(&self) -> std::io::Result<()> {
         let snapshot = {
